@@ -22,7 +22,7 @@ META = {
     "modules": ["pkgcore.ebuild.triggers", "pkgcore.merge.engine", "pkgcore.merge.triggers"],
     "functions": ["etriggers.gen_config_protect_filter", "etriggers.gen_collision_ignore_filter", "etriggers.ConfigProtectInstall.trigger", "etriggers.ConfigProtectInstall_restore.trigger", "etriggers.ConfigProtectUninstall.trigger", "etriggers.collapse_envd", "etriggers.simple_chksum_compare", "engine.MergeEngine.install/uninstall"],
     "bounds": {"quick": "menus above", "thorough": "same (the space is swept completely in both tiers)"},
-    "outside": ["offset '/'", "CONFIG_PROTECT passed as extra_protects by the domain", "more than one protected file per directory needing an update at once"],
+    "outside": ["offset '/'", "CONFIG_PROTECT passed as extra_protects by the domain"],
     "assumptions": [],
     "selector_only": True,
 }
@@ -36,7 +36,7 @@ PENDING = [
     [("._cfg0001_app.conf", "NEW app\n"), ("._cfg0005_app.conf", "other\n")], [("._cfg0007_other.conf", "x\n"), ("._cfgXXXX_app.conf", "y\n"), ("._cfg0002_app.conf", "other\n")],
 ]
 EXPECT_NUM = [0, 0, 4, 1, 3]
-FILES = {"etc/app.conf": "app", "opt/app/conf/main.cfg": "main", "etc/masked/m.conf": "m", "etc/ign/i.conf": "i", "usr/lib/plain": "plain"}
+FILES = {"etc/app.conf": "app", "opt/app/conf/main.cfg": "main", "etc/masked/m.conf": "m", "etc/ign/i.conf": "i", "usr/lib/plain": "plain", "etc/masked-local/s.conf": "s", "etc/ignored.conf": "g"}
 
 
 class FakePkg:
@@ -160,7 +160,7 @@ class ConfigHarness(Harness):
                         # an identical pending update may be rewritten with the same bytes, nothing else
                         problems.append(f"{p}: changed or removed")
             else:
-                modified = {"etc/app.conf": c["mod_app"], "opt/app/conf/main.cfg": c["mod_main"], "etc/masked/m.conf": c["mod_m"], "etc/ign/i.conf": True, "usr/lib/plain": True}
+                modified = {"etc/app.conf": c["mod_app"], "opt/app/conf/main.cfg": c["mod_main"], "etc/masked/m.conf": c["mod_m"], "etc/ign/i.conf": True, "usr/lib/plain": True, "etc/masked-local/s.conf": True, "etc/ignored.conf": True}
                 for rel, data in live.items():
                     mkfile(os.path.join(img, rel), data)  # what the package recorded
                     mkfile(os.path.join(root, rel), data + ("edited by the admin\n" if modified[rel] else ""))
